@@ -193,6 +193,13 @@ func VerifC14SliceGC() {
 	for k := 0; k < nSets; k++ {
 		os := corev1alpha1.ObjectSet{}
 		os.Name, os.Namespace = "os"+strconv.Itoa(k), "ns"
+		// whatever its lifecycle state, an existing ObjectSet still needs its slices (teardown reads them)
+		os.Spec.LifecycleState = corev1alpha1.ObjectSetLifecycleState(verifrt.StringFrom(os.Name+".lifecycle",
+			string(corev1alpha1.ObjectSetLifecycleStateActive), string(corev1alpha1.ObjectSetLifecycleStatePaused),
+			string(corev1alpha1.ObjectSetLifecycleStateArchived)))
+		if verifrt.Bool(os.Name + ".archivedCondition") {
+			os.Status.Conditions = []metav1.Condition{{Type: corev1alpha1.ObjectSetArchived, Status: metav1.ConditionTrue}}
+		}
 		p := corev1alpha1.ObjectSetTemplatePhase{Name: "p"}
 		for _, s := range universe {
 			if verifrt.Bool(os.Name + "." + s) {
